@@ -13,7 +13,7 @@ FIXTURES = os.path.join(VERIF_DIR, "fixtures")
 
 REGISTRY: dict[str, Callable[[Run, Program], None]] = {}
 CONTROLS: dict[str, list[tuple[str, Callable[[Run, Program], object], list[tuple[str, str]]]]] = {}
-NOT_APPLICABLE = {"C10"}
+NOT_APPLICABLE: set = set()
 
 
 def prop(pid: str):
@@ -638,6 +638,26 @@ def check_c01(run: Run, prog: Program) -> None:
     run.floor("join / meet identities read (found, decided or not)", n, 6)
     prog.func("join")
     prog.func("meet")
+
+
+# ================================================================================================ C10
+@prop("C10")
+def check_c10(run: Run, prog: Program) -> None:
+    from geolint import quadforms
+
+    run.title = "Perpendicular/parallel/projection/mirror constructions meet their definitions"
+    run.clause = (
+        "decides TWO constructions of the plane as polynomial identities (E19.metric): SubspaceTensor.parallel and LineTensor.mirror are interpreted on a symbolic line "
+        "(a, b, c) and point (x, y, w); their joins and meets go through the interpreted duality dispatcher (as under C01), the line at infinity and the circular points "
+        "I, J are read from the module (complex constants a + b i with i^2 = -1). The parallel passes through the point and has the normal of the line; the mirror image "
+        "built from the circular points is the Cartesian reflection (x, y) - 2 (a x + b y + c w) / (a^2 + b^2) (a, b) for every representative (the complex factor "
+        "cancels). NOT decided - the larger part of C10: perpendicular and project (boolean-mask assignment into an uninitialised buffer; its complete initialisation is "
+        "a clause of C04), everything in 3-space (lines as 2-tensors, basis_matrix), is_perpendicular / is_parallel / is_cocircular / is_coplanar (tolerances), "
+        "angle_bisectors, base_point / direction / basis_matrix / general_point (case analysis on vanishing coordinates)."
+    )
+    run.trusted += ["LeviCivitaTensor(n) holds the permutation signs", "TensorDiagram.calculate contracts as C05 states (decided separately by E14)"]
+    n = quadforms.rule_metric_constructions(run, prog)
+    run.floor("metric constructions read (found, decided or not)", n, 2)
 
 
 # ================================================================================================ C15
